@@ -883,3 +883,68 @@ c14_t1c!(c14_t1c_claim_from_list_2_take_1, 2, 1);
 c14_t1c!(c14_t1c_claim_from_list_2_take_3, 2, 3);
 c14_t1c!(c14_t1c_claim_from_list_1_take_1, 1, 1);
 c14_t1c!(c14_t1c_claim_from_empty_take_2, 0, 2);
+
+// =====================================================================================
+// C07.R4 / C14.T2c: the last dereference of a ref-counted value releases its *whole* storage: every part of the chain
+// becomes a tombstone and joins the free list exactly once (ValueTable::write_dec_ref -> change_ref -> write_remove_plan).
+// Pre-state: the specified layout of a value of `len` bytes with counter 1 at scattered slots of a ref-counted table.
+// `ValueTable::change_ref` is by contract here ("counter was 1: nothing left, returns false" — decided for every counter
+// value by C07.R1; with the real function on a multi-part head the harness did not finish in 15 minutes): what is decided
+// is that write_dec_ref then releases the whole chain, not just the slot it was given.
+// =====================================================================================
+pub static mut CR_CALLS: usize = 0;
+pub fn stub_change_ref_exhausted(_t: &ValueTable, index: u64, delta: i32, _l: &mut crate::log::LogWriter) -> Result<bool> {
+	assert!(index == 4 && delta == -1, "C07.R4 the dereference is applied to the value's head slot");
+	unsafe { CR_CALLS += 1; }
+	Ok(false)
+}
+fn dec_ref_frees_case(len: usize, compressed: bool) {
+	let value: [u8; CMAX] = kani::any();
+	let n = parts_needed(len + 4, CE);
+	let t = layout_table(true, n > 1);
+	t.filled.store(6, Ordering::Relaxed);
+	let overlays = vl::new_overlays();
+	let mut w = crate::log::LogWriter::new(&overlays, 1);
+	let slots = [4u64, 2, 5, 3];
+	let (ents, lens, _) = spec_layout(&value, len, Some(1), compressed, &slots);
+	preload_layout(&t, &mut w, false, &ents, &lens, n, &slots);
+	let writes0 = unsafe { vl::OV_WRITES };
+	unsafe { CR_CALLS = 0; }
+	let remains = t.write_dec_ref(4, &mut w).unwrap();
+	assert!(!remains && unsafe { CR_CALLS } == 1, "C07.R4 the last dereference reports the value gone");
+	assert!(unsafe { vl::OV_WRITES } == writes0 + n, "C14.T2c exactly the parts of the value are rewritten");
+	let mut cur = t.last_removed.load(Ordering::Relaxed);
+	let mut seen = [false; 8];
+	let mut cnt = 0;
+	let mut hops = 0;
+	while hops < CP + 1 {
+		if cur != 0 {
+			assert!(cur < 6 && !seen[cur as usize], "C14.T2c free list in range, no slot twice");
+			seen[cur as usize] = true;
+			let mut b = [0u8; 10];
+			assert!(vl::rec_get(&w, t.id, cur, &mut b) && b[0] == 0xff && b[1] == 0xff, "C14.T2c freed part is a tombstone");
+			cur = le64(&b, 2);
+			cnt += 1;
+		}
+		hops += 1;
+	}
+	assert!(cur == 0 && cnt == n, "C14.T2c every part of a value whose count reached zero is on the free list exactly once");
+	let mut p = 0;
+	while p < CP { if p < n { assert!(seen[slots[p] as usize], "C14.T2c each part was released"); } p += 1; }
+	kani::cover!(cnt == n && n >= 1);
+	std::mem::forget(w); std::mem::forget(t); std::mem::forget(overlays);
+}
+macro_rules! c07_r4 {
+	($name:ident, $body:expr) => {
+		crate::verif_tbl! {
+			#[kani::proof]
+			#[kani::unwind(102)]
+			#[kani::stub(crate::table::ValueTable::change_ref, stub_change_ref_exhausted)]
+			fn $name() { $body }
+		}
+	};
+}
+c07_r4!(c07_r4_last_dereference_frees_chain_len27, { let c: bool = kani::any(); if c { dec_ref_frees_case(27, true) } else { dec_ref_frees_case(27, false) } });
+c07_r4!(c07_r4_last_dereference_frees_chain_len49, { let c: bool = kani::any(); if c { dec_ref_frees_case(49, true) } else { dec_ref_frees_case(49, false) } });
+c07_r4!(c07_r4_last_dereference_frees_chain_len71, { dec_ref_frees_case(71, false) });
+c07_r4!(c07_r4_last_dereference_frees_single_len8, { dec_ref_frees_case(8, false) });
